@@ -396,7 +396,7 @@ def make_unit(iset, cube_name, cube_pred, memarch='PMSA', nregions=1, props=('C1
                     _, s_unpred, s_undef = SS.spec_step(r, st0, instr, 'arm' if iset == 'arm' else 'thumb', oplen)
                     ob = eng.oblige('post.exc', '%s: takes %s only where the architecture specifies an exception' % (tag, ','.join(took)),
                                     lor(lnot(r.match(instr)), s_undef, s_unpred, unpred))
-                    ob.props = fams(r, fam) + ['C11']
+                    ob.props = fams(r, fam) + ['C11', dprop]
         if rows and not events:
             dprop = 'C06' if iset == 'arm' else 'C07'
             want = 'arm' if iset == 'arm' else ('t16' if iset == 'thumb16' else 't32')
